@@ -3,17 +3,30 @@ package quic
 import (
 	"math/bits"
 	"net"
+	"sync"
 	"sync/atomic"
 
+	"github.com/refraction-networking/uquic/internal/protocol"
 	"github.com/refraction-networking/uquic/internal/utils"
 )
+
+// A closed connection doesn't send more than 3x the bytes it received, see section 10.2.1 of RFC 9000.
+const closedConnAmplificationFactor = 3
 
 // A closedLocalConn is a connection that we closed locally.
 // When receiving packets for such a connection, we need to retransmit the packet containing the CONNECTION_CLOSE frame,
 // with an exponential backoff.
+// Since all connection state (including the state of address validation) is gone,
+// the total size of these retransmissions is limited to three times the size of the packets received
+// for the closed connection, see section 10.2.1 of RFC 9000.
 type closedLocalConn struct {
 	counter atomic.Uint32
 	logger  utils.Logger
+
+	mx            sync.Mutex
+	packetSize    protocol.ByteCount // size of the packet containing the CONNECTION_CLOSE
+	bytesReceived protocol.ByteCount
+	bytesSent     protocol.ByteCount
 
 	sendPacket func(net.Addr, packetInfo)
 }
@@ -22,19 +35,36 @@ var _ packetHandler = &closedLocalConn{}
 
 // newClosedLocalConn creates a new closedLocalConn and runs it.
 func newClosedLocalConn(sendPacket func(net.Addr, packetInfo), logger utils.Logger) packetHandler {
+	return newClosedLocalConnWithPacketSize(sendPacket, 0, logger)
+}
+
+// newClosedLocalConnWithPacketSize creates a new closedLocalConn.
+// packetSize is the size of the packet that sendPacket sends.
+func newClosedLocalConnWithPacketSize(sendPacket func(net.Addr, packetInfo), packetSize protocol.ByteCount, logger utils.Logger) packetHandler {
 	return &closedLocalConn{
 		sendPacket: sendPacket,
+		packetSize: packetSize,
 		logger:     logger,
 	}
 }
 
 func (c *closedLocalConn) handlePacket(p receivedPacket) {
 	n := c.counter.Add(1)
+	c.mx.Lock()
+	c.bytesReceived += p.Size()
 	// exponential backoff
 	// only send a CONNECTION_CLOSE for the 1st, 2nd, 4th, 8th, 16th, ... packet arriving
 	if bits.OnesCount32(n) != 1 {
+		c.mx.Unlock()
 		return
 	}
+	if c.bytesSent+c.packetSize > closedConnAmplificationFactor*c.bytesReceived {
+		c.mx.Unlock()
+		c.logger.Debugf("Received %d packets after sending CONNECTION_CLOSE. Amplification limited, not retransmitting.", n)
+		return
+	}
+	c.bytesSent += c.packetSize
+	c.mx.Unlock()
 	c.logger.Debugf("Received %d packets after sending CONNECTION_CLOSE. Retransmitting.", n)
 	c.sendPacket(p.remoteAddr, p.info)
 }
